@@ -57,6 +57,14 @@ def streams(rng, tier):
         a, b = gen.spell_wide(rng, v1), gen.spell_wide(rng, v2)
         out.append(Case("pairs-wide", "v.cmph", [a, b]))
         out.append(Case("law-rank", "law.v.rank", [a, b, gen.rel_of(v1, v2)], kind="law"))
+    for _ in range(300 if q else 6000):
+        # numbers of DIFFERENT lengths beyond any fixed width (17..60 digits), in one component: numeric order, not text order / padded text order
+        n1 = rng.randrange(10 ** rng.randrange(16, 60)); n2 = rng.choice([rng.randrange(10 ** rng.randrange(16, 60)), n1 * 10 + rng.randrange(10), n1 // 10, n1 + 1])
+        tpl = rng.choice(["1.0+%d", "1.0+a.%d", "%d", "1.%d", "%d!1", "1.post%d", "1.dev%d", "1rc%d", "1.0+%d.x"])
+        v1s, v2s = tpl % n1, tpl % n2
+        rel = "<" if n1 < n2 else ">" if n1 > n2 else "="
+        out.append(Case("pairs-big-numbers", "v.cmph", [v1s, v2s]))
+        out.append(Case("law-rank", "law.v.rank", [v1s, v2s, rel], kind="law"))
     for _ in range(2500 if q else 50000):
         v1 = rng.choice(vs)
         v2 = rng.choice(gen.neighbours(rng, v1) + [v1]) if rng.random() < 0.7 else rng.choice(allv)
